@@ -833,8 +833,12 @@ class TypedGen:
 		members = r.sample(['RED', 'GREEN', 'BLUE', 'LOW', 'MID', 'HIGH', 'ON', 'OFF'], r.choice([2, 3]))
 		self.enums[name] = []
 		self.emit(f'class {name}(Enum):')
+		used_vals: set[int] = set()
 		for i, m in enumerate(members):
 			val = i if r.random() < 0.5 else (i + 1) * r.choice([1, 2, 10])
+			while val in used_vals:
+				val += 1  # equal values would make the later member an alias of the earlier one in Python (its .name differs)
+			used_vals.add(val)
 			self.emit(f'\t{m} = {val}')
 			self.enums[name].append((m, val))
 		self.emit('')
